@@ -39,6 +39,7 @@ import lemoncheesecake.task as LT
 from gen import reports as R
 from lemoncheesecake.events import AsyncEventManager, EventManager
 from lemoncheesecake.reporting.backend import ReportingBackend, ReportingSession, ReportingSessionBuilderMixin
+import lemoncheesecake.reporting.backends.console as CON
 from lemoncheesecake.session import Session
 from obs import schedrec
 
@@ -239,8 +240,26 @@ def _dump(ctx, nb=40):
     return "\n".join(out)
 
 
+class _NullOut:
+    """where the real console backend writes during a recorded run"""
+
+    def write(self, s):
+        return len(s)
+
+    def flush(self):
+        pass
+
+    def isatty(self):
+        return False
+
+
+class _ConsoleSys:
+    """stands in for the `sys` module global of reporting/backends/console.py (it only uses `sys.stdout`)"""
+    stdout = _NullOut()
+
+
 def run_project(project, strategy="off", gate_seed=0, interrupt_at=None, backend_fault=None, watchdog=30.0,
-                gate_watchdog=10.0, stall=8.0, builder=None):
+                gate_watchdog=10.0, stall=8.0, builder=None, console=True):
     """
     strategy      "off" | "fifo" | "lifo" | "random"   gate controller (obs.schedrec)
     interrupt_at  None | ["get", k]                    KeyboardInterrupt instead of the k-th blocking completed-queue get
@@ -250,6 +269,9 @@ def run_project(project, strategy="off", gate_seed=0, interrupt_at=None, backend
     watchdog      seconds for the WHOLE run; beyond it the case is aborted (state dumped, gates released) with outcome {"hang": true}
     builder       None (run/build.py: objects built directly) | callable (project, interp) -> (suites, fixture registry), e.g. the
                   declared route of props/_declrun.py (source + decorators + the real class loader)
+    console       attach the REAL console backend too (as `lcc run` does by default), after the recording backend: its handlers run
+                  on the same event-handling thread as the report writer's — sequential flavour with 1 worker thread, parallel
+                  flavour otherwise; what it prints is discarded (module globals `sys` / `print` of console.py replaced for the run)
     """
     n = project["nb_threads"]
     ctx = _Ctx()
@@ -315,7 +337,10 @@ def run_project(project, strategy="off", gate_seed=0, interrupt_at=None, backend
             return
         em = EM.load()
         side["em"] = em
-        session = Session.create(em, [RecBackend(ctx)], tmp, None, nb_threads=n)
+        backends = [RecBackend(ctx)]
+        if console:
+            backends.append(CON.ConsoleBackend())
+        session = Session.create(em, backends, tmp, None, nb_threads=n)
         side["session"] = session
         try:
             ret = LR.run_suites(suites, registry, session, force_disabled=project["force_disabled"],
@@ -328,8 +353,11 @@ def run_project(project, strategy="off", gate_seed=0, interrupt_at=None, backend
 
     obs = {"watchdog": False, "dump": None, "fault": backend_fault, "interrupt": list(interrupt_at) if interrupt_at else None,
            "strategy": strategy, "gate_seed": gate_seed}
+    con_saved = (CON.__dict__.get("sys"), CON.__dict__.get("print"))
     try:
         threading.excepthook = hook
+        if console:
+            CON.sys, CON.print = _ConsoleSys, (lambda *a, **k: None)
         with schedrec.patched(rec):
             LR.run_tasks, LR.RunContext = run_tasks_wrapper, RecRunContext
             try:
@@ -383,6 +411,12 @@ def run_project(project, strategy="off", gate_seed=0, interrupt_at=None, backend
         return C.jsonable(obs)
     finally:
         rec.stop_controller()
+        if console:
+            CON.sys = con_saved[0]
+            if con_saved[1] is None:
+                CON.__dict__.pop("print", None)
+            else:
+                CON.print = con_saved[1]
         threading.excepthook = old_hook
         Session._instance = old_instance
         shutil.rmtree(tmp, ignore_errors=True)
